@@ -883,8 +883,8 @@ theorem writeElem_spec (version : Nat) (enc : Option CqlVal → Res (Option Byte
     | some b =>
       have := hob.2 b rfl
       rw [hf, if_neg (by decide)] at this
-      show pure (writeShortBytes (some b)) = _
-      rw [Option.getD_some, shortBytes_eq b this]; rfl
+      show (if b.length > 65535 then _ else pure (writeShortBytes (some b))) = _
+      rw [if_neg (by omega), Option.getD_some, shortBytes_eq b this]; rfl
 
 theorem readElemBytes_spec (version : Nat) (ob : Option Bytes) (hob : ObOk version ob) (rest : Bytes) :
     (readElemBytes version).run (element version ob ++ rest) = .ok (ob, rest) := by
@@ -995,18 +995,22 @@ theorem writeMapEntry_spec (version : Nat) (encK encV : Option CqlVal → Res (O
     have h2' : writeBytes (p.2.map serV) = element version (p.2.map serV) := Res.ok_inj h2
     rw [if_pos rfl, ← h1', ← h2']; rfl
   | false =>
-    rw [hf] at h1 h2
+    have hf' : fourByte version = false := by rw [← uses4_eq]; exact hf
     rw [if_neg (by decide)]
     cases hk' : p.1.map serK with
-    | none => rw [hk'] at h1; cases h1
+    | none => have := hok.1 hf'; rw [hk'] at this; cases this
     | some k =>
       cases hv' : p.2.map serV with
-      | none => rw [hv'] at h2; cases h2
+      | none => have := hov.1 hf'; rw [hv'] at this; cases this
       | some v =>
-        rw [hk'] at h1; rw [hv'] at h2
-        have h1' : writeShortBytes (some k) = element version (some k) := Res.ok_inj h1
-        have h2' : writeShortBytes (some v) = element version (some v) := Res.ok_inj h2
-        rw [← h1', ← h2']; rfl
+        -- the `[short]` bound of `HasType` keeps both `collectionElementTooLarge` checks silent
+        have bk := hok.2 k hk'
+        have bv := hov.2 v hv'
+        rw [hf', if_neg (by decide)] at bk bv
+        show (if k.length > 65535 then _ else if v.length > 65535 then _ else _) = _
+        rw [if_neg (by omega), if_neg (by omega), element, element, hf', if_neg (by decide), if_neg (by decide),
+          Option.getD_some, Option.getD_some, shortBytes_eq k bk, shortBytes_eq v bv]
+        rfl
 
 theorem readMapEntry_spec (version : Nat) (decK decV : Option Bytes → Res (Option CqlVal)) (obk obv : Option Bytes)
     (k v : Option CqlVal) (hk : decK obk = .ok k) (hv : decV obv = .ok v) (hok : ObOk version obk)
@@ -1240,6 +1244,22 @@ theorem writeUdt_spec (version : Nat) : ∀ (names : List Bytes) (ts : List Data
     rw [writeUdt, h1, writeUdt_spec version ns ts fs (by simpa using hl) hs.2 h.2, serializeFields, bytesOpt_eq _ h2]
     rfl
 end
+/-- a UDT field that is present: the input is not exhausted (a `[bytes]` has at least its 4-byte length) -/
+theorem readUdtFieldBytes_RT (b : Option Bytes) (h : ∀ c, b = some c → c.length < 2147483648) (rest : Bytes) :
+    readUdtFieldBytes.run (writeBytes b ++ rest) = .ok (b, rest) := by
+  have hr : remaining.run (writeBytes b ++ rest) = .ok ((writeBytes b ++ rest).length, writeBytes b ++ rest) := rfl
+  have h4 : lengthOfInt = 4 := rfl
+  have hl : (writeBytes b ++ rest).length > 0 := by
+    rw [List.length_append, writeBytes_len]
+    cases b with
+    | none => rw [lengthOfBytes]; omega
+    | some c => rw [lengthOfBytes]; omega
+  rw [readUdtFieldBytes, bind_ok hr, if_pos hl]
+  exact readBytes_RT b h rest
+
+/-- a UDT field after the end of the input: its bytes are nil -/
+theorem readUdtFieldBytes_nil : readUdtFieldBytes.run [] = .ok (none, []) := rfl
+
 theorem dec_elem (version : Nat) (e : DataType) (hs : Supported e = true)
     (ih : ∀ y, HasType version e y → decodeC version e (some (serialize version e y)) = .ok (some y))
     (o : Option CqlVal) (h : ElemOk version (HasType version e) (serialize version e) o) :
@@ -1353,7 +1373,7 @@ theorem readUdt_spec (version : Nat) : ∀ (names : List Bytes) (ts : List DataT
   | _ :: ns, t :: ts, f :: fs, hl, hs, h, rest => by
     rw [HasFields] at h; rw [SupportedList, Bool.and_eq_true] at hs
     obtain ⟨h1, h2⟩ := dec_field version t hs.1 (fun y hy => decodeC_spec version t y hs.1 hy) f h.1
-    rw [readUdt, serializeFields, bytesOpt_eq _ h2, List.append_assoc, bind_ok (readBytes_RT _ h2 _),
+    rw [readUdt, serializeFields, bytesOpt_eq _ h2, List.append_assoc, bind_ok (readUdtFieldBytes_RT _ h2 _),
       bind_ok (liftR_ok _ _ h1 _), bind_ok (readUdt_spec version ns ts fs (by simpa using hl) hs.2 h.2 rest)]
     rfl
 end
@@ -1517,6 +1537,9 @@ theorem decodeMap_noPanic (version : Nat) (decK decV : Option Bytes → Res (Opt
   exact ResNoPanic.ite (ResNoPanic.ok _)
     (ResNoPanic.bind (readMap_noPanic version decK decV hk hv _) (fun _ => ResNoPanic.ok _))
 
+theorem NoPanic.readUdtFieldBytes : NoPanic readUdtFieldBytes := by
+  rw [Value.readUdtFieldBytes]; no_panic [NoPanic.remaining, NoPanic.readBytes]
+
 -- every UDT in the type has a name for each of its fields (what `datatype.NewUserDefined` checks and what
 -- `ReadDataType` produces); `readUdt` indexes `fieldNames[i]` without a check
 mutual
@@ -1576,7 +1599,7 @@ theorem readUdt_noPanic (version : Nat) : ∀ (names : List Bytes) (ts : List Da
   | _ :: ns, t :: ts, hl, h => by
     rw [NamesCoverList] at h
     rw [readUdt]
-    no_panic [NoPanic.readBytes, NoPanic.liftR (decodeC_noPanic version t h.1 _),
+    no_panic [NoPanic.readUdtFieldBytes, NoPanic.liftR (decodeC_noPanic version t h.1 _),
       readUdt_noPanic version ns ts (by simpa using hl) h.2]
 end
 
@@ -1702,6 +1725,153 @@ theorem encode_map_null_v2 (version : Nat) (k v : DataType) (hk : Supported k = 
       cases Res.ok_inj hev
       cases ek <;> cases hx
   · rw [if_neg hc] at h; cases h
+
+/-! ### v2: elements longer than a `[short]` can say are refused (`collectionElementTooLarge`) -/
+
+theorem writeElem_long_v2 (version : Nat) (enc : Option CqlVal → Res (Option Bytes)) (h2 : fourByte version = false)
+    (o : Option CqlVal) (b : Bytes) (henc : enc o = .ok (some b)) (hlong : 65535 < b.length) :
+    writeElem version enc o = .err "collection element too large" := by
+  rw [writeElem, henc, uses4_eq, h2]
+  show (if b.length > 65535 then _ else _) = _
+  rw [if_pos hlong]
+
+theorem writeCollection_long_v2 (version : Nat) (enc : Option CqlVal → Res (Option Bytes)) (h2 : fourByte version = false)
+    (xs : List (Option CqlVal)) (o : Option CqlVal) (ho : o ∈ xs) (b : Bytes) (henc : enc o = .ok (some b))
+    (hlong : 65535 < b.length) (bs : Bytes) : writeCollection version enc xs ≠ .ok bs := by
+  intro h
+  rw [writeCollection] at h
+  obtain ⟨_, _, h⟩ := Res.bind_ok_inv h
+  obtain ⟨body, hbody, _⟩ := Res.bind_ok_inv h
+  obtain ⟨x, hx⟩ := writeAll_ok_inv _ xs body hbody o ho
+  rw [writeElem_long_v2 version enc h2 o b henc hlong] at hx
+  cases hx
+
+theorem writeMapEntry_long_v2 (version : Nat) (encK encV : Option CqlVal → Res (Option Bytes))
+    (h2 : fourByte version = false) (p : Option CqlVal × Option CqlVal) (b : Bytes) (hlong : 65535 < b.length)
+    (henc : encK p.1 = .ok (some b) ∨ encV p.2 = .ok (some b)) (x : Bytes) : writeMapEntry version encK encV p ≠ .ok x := by
+  intro hx
+  rw [writeMapEntry] at hx
+  obtain ⟨ek, hek, hx⟩ := Res.bind_ok_inv hx
+  obtain ⟨ev, hev, hx⟩ := Res.bind_ok_inv hx
+  rw [uses4_eq, h2] at hx
+  rcases henc with h1 | h1
+  · rw [h1] at hek
+    cases Res.ok_inj hek
+    cases ev with
+    | none => cases hx
+    | some v =>
+      change (if b.length > 65535 then _ else _) = _ at hx
+      rw [if_pos hlong] at hx; cases hx
+  · rw [h1] at hev
+    cases Res.ok_inj hev
+    cases ek with
+    | none => cases hx
+    | some k =>
+      change (if k.length > 65535 then _ else if b.length > 65535 then _ else _) = _ at hx
+      by_cases hk : k.length > 65535
+      · rw [if_pos hk] at hx; cases hx
+      · rw [if_neg hk, if_pos hlong] at hx; cases hx
+
+/-- v2: a list / set holding an element whose encoding is longer than 65535 bytes is refused by `Encode` -/
+theorem encode_list_long_v2 (version : Nat) (e : DataType) (h2 : fourByte version = false) (xs : List (Option CqlVal))
+    (o : Option CqlVal) (ho : o ∈ xs) (b : Bytes) (henc : encode version e o = .ok (some b)) (hlong : 65535 < b.length)
+    (r : Option Bytes) :
+    encode version (.list e) (some (.list xs)) ≠ .ok r ∧ encode version (.set e) (some (.list xs)) ≠ .ok r := by
+  have key : codecOk e = true → ∀ bs, writeCollection version (encodeC version e) xs ≠ .ok bs := by
+    intro hc bs
+    rw [encode, if_pos hc] at henc
+    exact writeCollection_long_v2 version _ h2 xs o ho b henc hlong bs
+  constructor
+  · intro h
+    rw [encode] at h
+    by_cases hc : codecOk (.list e) = true
+    · rw [if_pos hc, encodeC, encodeCollection] at h
+      obtain ⟨bs, hbs, _⟩ := Res.bind_ok_inv h
+      rw [codecOk] at hc
+      exact key hc bs hbs
+    · rw [if_neg hc] at h; cases h
+  · intro h
+    rw [encode] at h
+    by_cases hc : codecOk (.set e) = true
+    · rw [if_pos hc, encodeC, encodeCollection] at h
+      obtain ⟨bs, hbs, _⟩ := Res.bind_ok_inv h
+      rw [codecOk] at hc
+      exact key hc bs hbs
+    · rw [if_neg hc] at h; cases h
+
+/-- v2: a map holding a key or a value whose encoding is longer than 65535 bytes is refused by `Encode` -/
+theorem encode_map_long_v2 (version : Nat) (k v : DataType) (h2 : fourByte version = false)
+    (es : List (Option CqlVal × Option CqlVal)) (p : Option CqlVal × Option CqlVal) (hp : p ∈ es) (b : Bytes)
+    (hlong : 65535 < b.length)
+    (henc : encode version k p.1 = .ok (some b) ∨ encode version v p.2 = .ok (some b)) (r : Option Bytes) :
+    encode version (.map k v) (some (.map es)) ≠ .ok r := by
+  intro h
+  rw [encode] at h
+  by_cases hc : codecOk (.map k v) = true
+  · rw [if_pos hc, encodeC, encodeMap] at h
+    rw [codecOk, Bool.and_eq_true] at hc
+    rw [encode, if_pos hc.1, encode, if_pos hc.2] at henc
+    obtain ⟨bs, hbs, _⟩ := Res.bind_ok_inv h
+    rw [writeMap] at hbs
+    obtain ⟨_, _, hbs⟩ := Res.bind_ok_inv hbs
+    obtain ⟨body, hbody, _⟩ := Res.bind_ok_inv hbs
+    obtain ⟨x, hx⟩ := writeAll_ok_inv _ es body hbody p hp
+    exact writeMapEntry_long_v2 version _ _ h2 p b hlong henc x hx
+  · rw [if_neg hc] at h; cases h
+
+/-! ### a UDT value with fewer fields than its type (§6): the missing trailing fields read as NULL -/
+
+/-- no field values: nothing is written -/
+theorem serializeFields_nil (version : Nat) (ts : List DataType) : serializeFields version ts [] = [] := by
+  rw [serializeFields]
+  intro _ _ _ _ _ h; cases h
+
+/-- the reader on the serialization of only the leading fields `present`, when the remaining `k` fields are null -/
+theorem readUdt_fewer (version : Nat) : ∀ (names : List Bytes) (ts : List DataType) (present : List (Option CqlVal))
+    (k : Nat), ts.length ≤ names.length → SupportedList ts = true →
+    HasFields version ts (present ++ List.replicate k none) →
+    (readUdt version names ts).run (serializeFields version ts present) = .ok (present ++ List.replicate k none, [])
+  | _, [], [], 0, _, _, _ => by rw [readUdt]; rfl
+  | _, [], [], _ + 1, _, _, h => False.elim h
+  | _, [], _ :: _, _, _, _, h => False.elim h
+  | [], _ :: _, _, _, hl, _, _ => by simp at hl
+  | _ :: _, _ :: _, [], 0, _, _, h => False.elim h
+  | _ :: ns, t :: ts, [], k + 1, hl, hs, h => by
+    have h' : HasFields version (t :: ts) (none :: ([] ++ List.replicate k none)) := h
+    rw [HasFields] at h'; rw [SupportedList, Bool.and_eq_true] at hs
+    have ih := readUdt_fewer version ns ts [] k (by simpa using hl) hs.2 h'.2
+    rw [serializeFields_nil] at ih
+    rw [readUdt, serializeFields_nil, bind_ok readUdtFieldBytes_nil, bind_ok (liftR_ok _ _ (decodeC_none version t hs.1) _), bind_ok ih]
+    rfl
+  | _ :: ns, t :: ts, f :: fs, k, hl, hs, h => by
+    have h' : HasFields version (t :: ts) (f :: (fs ++ List.replicate k none)) := h
+    rw [HasFields] at h'; rw [SupportedList, Bool.and_eq_true] at hs
+    obtain ⟨h1, h2⟩ := dec_field version t hs.1 (fun y hy => decodeC_spec version t y hs.1 hy) f h'.1
+    rw [readUdt, serializeFields, bytesOpt_eq _ h2, bind_ok (readUdtFieldBytes_RT _ h2 _),
+      bind_ok (liftR_ok _ _ h1 _), bind_ok (readUdt_fewer version ns ts fs k (by simpa using hl) hs.2 h'.2)]
+    rfl
+
+/-- `Decode` of a UDT value that stops after the fields `present` (at least one): the `k` missing fields are NULL -/
+theorem decode_udt_fewer (version : Nat) (ks nm : Bytes) (names : List Bytes) (ts : List DataType)
+    (present : List (Option CqlVal)) (k : Nat) (hs : Supported (.udt ks nm names ts) = true)
+    (ht : HasType version (.udt ks nm names ts) (.udt (present ++ List.replicate k none))) (hne : present ≠ []) :
+    decode version (.udt ks nm names ts) (some (serialize version (.udt ks nm names ts) (.udt present))) =
+      .ok (some (.udt (present ++ List.replicate k none))) := by
+  rw [decode, if_pos (codecOk_of_supported _ hs)]
+  rw [HasType] at ht; rw [Supported] at hs
+  have hlen : (serializeFields version ts present).length ≠ 0 := by
+    cases ts with
+    | nil => exact absurd rfl ht.1
+    | cons t ts =>
+      cases present with
+      | nil => exact absurd rfl hne
+      | cons f fs =>
+        rw [serializeFields, List.length_append]
+        have := bytesOpt_length_ge (f.map (serialize version t))
+        omega
+  rw [decodeC, serialize, Option.getD_some, if_neg hlen,
+    readAll_ok _ _ _ (readUdt_fewer version names ts present k (by omega) hs ht.2.2)]
+  rfl
 
 /-! ### type descriptors read from the wire name every UDT field -/
 
